@@ -261,6 +261,20 @@ def run_case(case, rng):
         wtc = np_ptrace(M, dims, keep) if keep else np.array([[np.trace(M)]])
         if tc.full().shape != wtc.shape or np.abs(tc.full() - wtc).max() > 1e-9:
             viol.append(("tensor_contract", f"tensor_contract(dims={dims}, ({a},{k + a})) is not the contraction of subsystem {a}"))
+        # any two tensor indices of equal dimension, in either order (rows with rows, rows with columns, adjacent or not)
+        flat_ = dims + dims
+        Tn = M.reshape(flat_)
+        cands = [(x, y) for x in range(2 * k) for y in range(2 * k) if x != y and flat_[x] == flat_[y]]
+        for x, y in [cands[int(ii)] for ii in rng.choice(len(cands), size=min(6, len(cands)), replace=False)] if cands else []:
+            rest_rows = [flat_[z] for z in range(k) if z not in (x, y)]
+            rest_cols = [flat_[z] for z in range(k, 2 * k) if z not in (x, y)]
+            want_t = np.trace(Tn, axis1=x, axis2=y).reshape(int(np.prod(rest_rows)) if rest_rows else 1, int(np.prod(rest_cols)) if rest_cols else 1)
+            try:
+                got_t = qutip.tensor_contract(Mq, (x, y)).full()
+                if got_t.shape != want_t.shape or np.abs(got_t - want_t).max() > 1e-9:
+                    viol.append(("tensor_contract-any-pair", f"tensor_contract(dims={dims}, ({x},{y})) is not the trace over tensor indices {x} and {y}"))
+            except Exception as e:
+                viol.append(("tensor_contract-raises", f"tensor_contract(dims={dims}, ({x},{y})): {type(e).__name__}: {e}"[:200]))
         # several contraction pairs in one call, in any order of the pairs and within a pair: the einsum over those pairs
         if k >= 3:
             for npairs in (2, 3):
